@@ -411,10 +411,71 @@ func c15Concurrent(seed int64, dir int, writers int, withClose bool) (string, st
 	return "", ""
 }
 
+// idle connection kept alive by pings (short WriteWait): data written long after the last ping must still arrive, both ways
+func c15IdlePings() (string, string) {
+	srv := ws.NewServer()
+	var mu sync.Mutex
+	var gotSrv, gotCli [][]byte
+	srv.SetMessageHandler(func(c ws.Channel, data []byte) error {
+		mu.Lock()
+		gotSrv = append(gotSrv, append([]byte(nil), data...))
+		mu.Unlock()
+		return nil
+	})
+	stc := ws.NewServerTimeoutConfig()
+	stc.WriteWait = 150 * time.Millisecond
+	stc.PingWait = 0
+	srv.SetTimeoutConfig(stc)
+	go srv.Start(0, "/ws/{id}")
+	for i := 0; i < 4000 && srv.Addr() == nil; i++ {
+		time.Sleep(250 * time.Microsecond)
+	}
+	defer srv.Stop()
+	cli := ws.NewClient()
+	cli.SetRequestedSubProtocol("ocpp1.6")
+	ctc := ws.NewClientTimeoutConfig()
+	ctc.WriteWait = 150 * time.Millisecond
+	ctc.PingPeriod = 400 * time.Millisecond
+	ctc.PongWait = 2 * time.Second
+	cli.SetTimeoutConfig(ctc)
+	cli.SetMessageHandler(func(data []byte) error {
+		mu.Lock()
+		gotCli = append(gotCli, append([]byte(nil), data...))
+		mu.Unlock()
+		return nil
+	})
+	if err := cli.Start(fmt.Sprintf("ws://127.0.0.1:%d/ws/peer", srv.Addr().Port)); err != nil {
+		return "C15-setup", err.Error()
+	}
+	defer cli.Stop()
+	for _, at := range []time.Duration{50 * time.Millisecond, 700 * time.Millisecond, 1350 * time.Millisecond} {
+		time.Sleep(at - 0)
+		if err := cli.Write([]byte("c2s")); err != nil {
+			return "C15-write-on-open-connection-failed", "client Write on a healthy idle connection: " + err.Error()
+		}
+		if err := srv.Write("peer", []byte("s2c")); err != nil {
+			return "C15-write-on-open-connection-failed", "server Write on a healthy idle connection: " + err.Error()
+		}
+		time.Sleep(60 * time.Millisecond)
+	}
+	time.Sleep(100 * time.Millisecond)
+	mu.Lock()
+	defer mu.Unlock()
+	if len(gotSrv) != 3 || len(gotCli) != 3 {
+		return "C15-lost-while-open", fmt.Sprintf("idle connection with pings: %d of 3 client messages and %d of 3 server messages delivered", len(gotSrv), len(gotCli))
+	}
+	return "", ""
+}
+
 func c15cGen(cfg config, emit func(Case)) {
-	n := 14
+	{
+		k, d := c15IdlePings()
+		emit(Case{Class: "idle-with-pings", Input: []int64{0, 9}, Obs: []int64{-2}, Comment: "idle connection with pings",
+			Check: func([]int64) (string, string) { return k, d }})
+	}
+	n := 80
 	if cfg.thorough {
-		n = 250
+		n = 600
 	}
 	for i := 0; i < n; i++ {
 		dir := i % 3
